@@ -1,11 +1,14 @@
 package main
 
 import (
+	"context"
 	"fmt"
 	"net/http"
 	"net/http/httptest"
 	"net/url"
 	"strings"
+	"sync/atomic"
+	"time"
 
 	"cuelabs.dev/go/oci/ociregistry"
 	"cuelabs.dev/go/oci/ociregistry/ociclient"
@@ -18,12 +21,53 @@ import (
 
 // stackEnv collects what building a stack creates.
 type stackEnv struct {
-	imm      bool
-	mems     []*ocimem.Registry
-	closers  []func()
-	srvOpts  ociserver.Options
-	pageSize int
-	wrapMem  func(ociregistry.Interface) ociregistry.Interface // e.g. a recording backend
+	imm       bool
+	mems      []*ocimem.Registry
+	closers   []func()
+	srvOpts   ociserver.Options
+	pageSize  int
+	wrapMem   func(ociregistry.Interface) ociregistry.Interface // e.g. a recording backend
+	inflight  atomic.Int64
+	curOp     atomic.Int64 // number of the client-side call being executed
+	subPrefix string       // set when the stack contains sub(...): names underneath carry this prefix
+}
+
+type opTagKey struct{}
+
+// tagTransport labels every outgoing request with the number of the client-side call it
+// belongs to, so that backend calls can be attributed even when a server handler outlives
+// the client call that caused it.
+type tagTransport struct {
+	env  *stackEnv
+	base http.RoundTripper
+}
+
+func (t *tagTransport) RoundTrip(req *http.Request) (*http.Response, error) {
+	n := t.env.curOp.Load()
+	if v, ok := req.Context().Value(opTagKey{}).(int64); ok {
+		n = v
+	}
+	req = req.Clone(req.Context())
+	req.Header.Set("X-Verif-Op", fmt.Sprint(n))
+	return t.base.RoundTrip(req)
+}
+
+func tagOf(ctx context.Context) int64 {
+	if v, ok := ctx.Value(opTagKey{}).(int64); ok {
+		return v
+	}
+	return -1
+}
+
+// quiesce waits until no server handler is running (a handler can outlive the client call
+// that caused it, e.g. when the transport aborts a request whose body is short).
+func (env *stackEnv) quiesce() {
+	for i := 0; i < 2000; i++ {
+		if env.inflight.Load() == 0 {
+			return
+		}
+		time.Sleep(500 * time.Microsecond)
+	}
 }
 
 func (env *stackEnv) close() {
@@ -72,13 +116,48 @@ func (env *stackEnv) build(s string) (ociregistry.Interface, string, error) {
 		}
 		return nil, "", fmt.Errorf("bad stack expression near %q", r)
 	}
+	opts := ""
+	if i := strings.Index(name, ":"); i >= 0 {
+		name, opts = name[:i], name[i+1:]
+	}
 	switch name {
 	case "http":
-		srv := httptest.NewServer(ociserver.New(args[0], &env.srvOpts))
+		// options: omitdigest, nolink, nosingle, maxN (server page limit), pageN (client page size)
+		so := env.srvOpts
+		page := env.pageSize
+		for _, o := range strings.Split(opts, "+") {
+			switch {
+			case o == "":
+			case o == "omitdigest":
+				so.OmitDigestFromTagGetResponse = true
+			case o == "nolink":
+				so.OmitLinkHeaderFromResponses = true
+			case o == "nosingle":
+				so.DisableSinglePostUpload = true
+			case strings.HasPrefix(o, "max"):
+				fmt.Sscanf(o[3:], "%d", &so.MaxListPageSize)
+			case strings.HasPrefix(o, "page"):
+				fmt.Sscanf(o[4:], "%d", &page)
+			default:
+				return nil, "", fmt.Errorf("unknown http option %q", o)
+			}
+		}
+		h := ociserver.New(args[0], &so)
+		srv := httptest.NewServer(http.HandlerFunc(func(w http.ResponseWriter, req *http.Request) {
+			env.inflight.Add(1)
+			defer env.inflight.Add(-1)
+			// carry the number of the client-side call this request belongs to
+			if t := req.Header.Get("X-Verif-Op"); t != "" {
+				var n int64
+				fmt.Sscanf(t, "%d", &n)
+				req = req.WithContext(context.WithValue(req.Context(), opTagKey{}, n))
+			}
+			h.ServeHTTP(w, req)
+		}))
 		env.closers = append(env.closers, srv.Close)
 		u, _ := url.Parse(srv.URL)
-		c, err := ociclient.New(u.Host, &ociclient.Options{Insecure: true, ListPageSize: env.pageSize,
-			Transport: &http.Transport{DisableKeepAlives: false, MaxIdleConnsPerHost: 4}})
+		c, err := ociclient.New(u.Host, &ociclient.Options{Insecure: true, ListPageSize: page,
+			Transport: &tagTransport{env: env, base: &http.Transport{DisableKeepAlives: false, MaxIdleConnsPerHost: 4}}})
 		if err != nil {
 			return nil, "", err
 		}
@@ -87,6 +166,9 @@ func (env *stackEnv) build(s string) (ociregistry.Interface, string, error) {
 		return ocidebug.New(args[0], func(string, ...any) {}), rest, nil
 	case "select":
 		return ocifilter.Select(args[0], func(string) bool { return true }), rest, nil
+	case "sub":
+		env.subPrefix = "pfx/sub"
+		return ocifilter.Sub(args[0], env.subPrefix), rest, nil
 	case "ro":
 		return ocifilter.ReadOnly(args[0]), rest, nil
 	case "immw":
